@@ -923,6 +923,10 @@ def run(prog, rep, tier):
              'operator as `op_i JW` in both places that build such terms')
     if check_jw_left_operator(prog, rep) < 2:
         raise AnalysisError('JW-left-operator: fewer than 2 products found')
+    from ..flow import check_stale_loop_reads
+    rep.rule('LOOP-stale-read', 'no per-item variable is read in a loop before the iteration assigns '
+             'it when its only other bindings are inside other loops')
+    check_stale_loop_reads(prog, rep, ['tenpy/networks/mps.py', 'tenpy/networks/site.py', 'tenpy/networks/terms.py'])
     return rep.finish(
         level='other',
         explanation='Operator-registry coupling, Jordan-Wigner routing, parameter-family '
